@@ -34,6 +34,7 @@ import enum
 import random
 import base64
 import textwrap
+import threading
 import warnings
 import collections
 
@@ -230,8 +231,12 @@ class IrcMsgQueue(object):
     the 'high priority' ones before the normal ones before the 'low priority'
     ones.
     """
-    __slots__ = ('msgs', 'highpriority', 'normal', 'lowpriority', 'lastJoin')
+    __slots__ = ('msgs', 'highpriority', 'normal', 'lowpriority', 'lastJoin',
+                 'lock')
     def __init__(self, iterable=()):
+        # Plugins call Irc.queueMsg from their own threads: the test for an
+        # equal queued message and the append are one step.
+        self.lock = threading.Lock()
         self.reset()
         for msg in iterable:
             self.enqueue(msg)
@@ -245,19 +250,19 @@ class IrcMsgQueue(object):
 
     def enqueue(self, msg):
         """Enqueues a given message."""
-        if msg in self and \
-           conf.supybot.protocols.irc.queuing.duplicates():
-            s = str(msg).strip()
-            log.info('Not adding message %q to queue, already added.', s)
-            return False
-        else:
-            if msg.command in _high:
-                self.highpriority.enqueue(msg)
-            elif msg.command in _low:
-                self.lowpriority.enqueue(msg)
-            else:
-                self.normal.enqueue(msg)
-            return True
+        with self.lock:
+            if not (msg in self and
+                    conf.supybot.protocols.irc.queuing.duplicates()):
+                if msg.command in _high:
+                    self.highpriority.enqueue(msg)
+                elif msg.command in _low:
+                    self.lowpriority.enqueue(msg)
+                else:
+                    self.normal.enqueue(msg)
+                return True
+        s = str(msg).strip()
+        log.info('Not adding message %q to queue, already added.', s)
+        return False
 
     def dequeue(self):
         """Dequeues a given message."""
